@@ -364,6 +364,8 @@ def oracle(line, out, mode):
         return "the call panics"
     if out in ("BADCASE", "SKIP", "WRONGMODE"):
         return None
+    if out.startswith("UNSTABLE"):
+        return "the textual entry points disagree: " + out[9:200]
     o = out.split(" ")
     if cmd == "EID":
         s = bytes.fromhex(toks[1][1:])
